@@ -524,7 +524,7 @@ def baseline_calls(unit):
     try:
         commit = load_cfg().get("baseline_commit")
         if commit:
-            bdir = os.path.join(ROOT, "build", f"baseline_{commit}")
+            bdir = os.path.join(BUILD, f"baseline_{commit}")
             if not os.path.isdir(os.path.join(bdir, "runtime")):
                 os.makedirs(bdir, exist_ok=True)
                 ar = subprocess.run(["git", "-C", "/repo", "archive", commit, "runtime", "rinklecate", "compiler"], capture_output=True)
@@ -817,6 +817,9 @@ def main():
     if len(sys.argv) < 2:
         print(__doc__)
         sys.exit(64)
+    global BUILD
+    # every property (and every --unit run) has a build directory of its own: checks may run side by side
+    BUILD = os.path.join(BUILD, ("unit_" + sys.argv[2]) if sys.argv[1] == "--unit" and len(sys.argv) > 2 else sys.argv[1])
     if sys.argv[1] == "--unit":
         # one unit, every obligation whatever property owns it (used by strength.py); no evidence, no replay files
         r = run_unit(sys.argv[2], "quick", 0)
